@@ -124,16 +124,16 @@ static int          sc_num_packages = 0;
 static int          sc_num_packages_alloc = 0;
 static sc_package_t *sc_packages = NULL;
 
-#ifdef SC_ENABLE_PTHREAD
-
-static pthread_mutex_t sc_default_mutex = PTHREAD_MUTEX_INITIALIZER;
-static pthread_mutex_t sc_error_mutex = PTHREAD_MUTEX_INITIALIZER;
-
 int
 sc_get_package_id (void)
 {
   return sc_package_id;
 }
+
+#ifdef SC_ENABLE_PTHREAD
+
+static pthread_mutex_t sc_default_mutex = PTHREAD_MUTEX_INITIALIZER;
+static pthread_mutex_t sc_error_mutex = PTHREAD_MUTEX_INITIALIZER;
 
 static void
 sc_check_abort_thread (int condition, int package, const char *message)
